@@ -101,7 +101,8 @@ type World struct {
 	closeCalled   atomic.Bool
 	held          atomic.Bool // a goroutine is parked by the harness
 	heldN         atomic.Int32
-	inBody        atomic.Bool // an Enqueue/Dequeue body has touched the channels but not yet logged its event
+	inBody        atomic.Bool  // an Enqueue/Dequeue body has touched the channels but not yet logged its event
+	api           atomic.Int32 // Enqueue/Dequeue calls of the scripted scenarios that have not returned yet
 	inCb          atomic.Int32
 
 	park    atomic.Pointer[parkReq]
@@ -199,11 +200,14 @@ func (w *World) maybePark(name string, args []any) {
 	if !req.used.CompareAndSwap(false, true) {
 		return
 	}
-	if !strings.HasPrefix(name, "process.") {
+	switch name {
+	case "loop.reset", "loop.beforeArm", "loop.parked", "loop.fired", "loop.exit", "loop.sawEmpty", "cb":
 		// A lock-free step of the loop can see a reset/token that an Enqueue/Dequeue body has just sent
-		// before that body has logged its event (it does so at the end of its critical section):
-		// let the body finish, so that the park is logged after the event that caused it.
-		for w.inBody.Load() {
+		// before that body has logged its event (it does so at the end of its critical section). The
+		// loop holds no lock here, so the call returns promptly: wait for it, so that the park is
+		// logged after the event that caused it.
+		deadline := time.Now().Add(time.Second)
+		for (w.api.Load() > 0 || w.inBody.Load()) && time.Now().Before(deadline) {
 			runtime.Gosched()
 		}
 	}
@@ -372,7 +376,15 @@ func (w *World) armPark(name string, match func(args []any) bool) *parkReq {
 }
 
 func (w *World) enqueue(key int, atNs int64) {
+	w.api.Add(1)
+	defer w.api.Add(-1)
 	w.p.Enqueue(&item{key: key, at: w.base.Add(time.Duration(atNs)), id: -1})
+}
+
+func (w *World) dequeue(key int) {
+	w.api.Add(1)
+	defer w.api.Add(-1)
+	w.p.Dequeue(key)
 }
 
 func (w *World) advance(toNs int64) { w.clk.Advance(w.base.Add(time.Duration(toNs))) }
